@@ -70,6 +70,8 @@ def _run_variant(args) -> dict:
         known = {(k["rule"], k["construct"]) for k in json.loads((VERIF / "known_findings.json").read_text())["findings"]
                  if k.get("status") == "known"}
         new = sorted(fails - known)
+        if expect == "SILENT":
+            return {"label": label, "status": "detected" if not new else "FALSE-ALARM", "reports": [f"{r} {c}" for r, c in new][:4]}
         if expect is None:
             ok = bool(new)
         else:
@@ -85,6 +87,11 @@ def variants_for(prop: str, root: Path) -> List[tuple]:
     if sd.is_dir():
         for d in sorted(sd.iterdir()):
             if d.name.startswith(prop + "_") and (d / "patch.diff").exists():
+                mp = d / "meta.json"
+                if mp.exists() and json.loads(mp.read_text()).get("retired"):
+                    # neutralised by a later fix: now a behaviour-preserving change that must NOT be reported
+                    out.append((prop, f"seeded/{d.name} (retired: must stay silent)", str(root), (d / "patch.diff").read_text(), False, "SILENT"))
+                    continue
                 out.append((prop, f"seeded/{d.name}", str(root), (d / "patch.diff").read_text(), False, None))
     kf = json.loads((VERIF / "known_findings.json").read_text())["findings"]
     seen = set()
@@ -113,7 +120,7 @@ def run(prop: str, ctx, rep):
     workers = min(16, len(vs))
     with ProcessPoolExecutor(max_workers=workers) as ex:
         results = list(ex.map(_run_variant, vs))
-    missed = [r for r in results if r["status"] == "MISSED"]
+    missed = [r for r in results if r["status"] in ("MISSED", "FALSE-ALARM")]
     for r in results:
         ok = r["status"] in ("detected", "skipped")
         rep.ob(f"self-test {r['label']}", ok or r["status"] == "analysis-error",
